@@ -38,6 +38,59 @@ def run(tier: str, seed: int, reg: Any, jobs: int = 16) -> list:
                 problems.append("non-positive alignment")
             if problems and len(fails) < 5:
                 fails.append({"inputs": {"family": fam, "memory": str(mem)}, "detail": "; ".join(problems), "obligation": "layout-data-obligations"})
-    return [{"name": "segment layouts of the live database", "function": "spsdk/data/devices/*/database.yaml (bootable_image)",
+    # ---- fixed-size segments: parse_binary of (payload of SIZE bytes || following bytes) recovers exactly the payload ------------------
+    import random
+    import struct
+
+    from spsdk.exceptions import SPSDKError
+
+    rnd = random.Random(seed)
+    fails2, n2, skipped = [], 0, 0
+    seen_seg = set()
+    for fam in get_families(DatabaseManager.BOOTABLE_IMAGE):
+        try:
+            mems = BootableImage.get_supported_memory_types(fam)
+        except Exception:  # pylint: disable=broad-except
+            continue
+        for mem in mems:
+            try:
+                bi = BootableImage(fam, mem)
+            except Exception:  # pylint: disable=broad-except
+                continue
+            for seg in bi._segments:
+                size = getattr(seg, "SIZE", -1)
+                key = (type(seg).__name__, size, fam if type(seg).__name__.startswith("SegmentFcb") else "")
+                if not isinstance(size, int) or size <= 0 or key in seen_seg:
+                    continue
+                seen_seg.add(key)
+                payloads = [bytes(rnd.getrandbits(8) | 1 for _ in range(size))]
+                if type(seg).__name__.startswith("SegmentFcb"):
+                    fcb = bytearray(rnd.getrandbits(8) for _ in range(size))
+                    fcb[0:4] = b"FCFB"
+                    struct.pack_into("<I", fcb, 4, 0x56010400)
+                    fcb[8:0x40] = bytes(0x38)
+                    fcb[-1] = 0xA5     # the last byte of the block must come back too
+                    payloads.append(bytes(fcb))
+                for payload in payloads:
+                    n2 += 1
+                    try:
+                        seg.clear()
+                        seg.parse_binary(payload + bytes(rnd.getrandbits(8) for _ in range(64)))
+                        back = seg.export()
+                    except SPSDKError:
+                        skipped += 1
+                        continue
+                    except Exception as e:  # pylint: disable=broad-except
+                        back = f"{type(e).__name__}: {e}".encode()
+                    if back != payload and len(fails2) < 5:
+                        fails2.append({"inputs": {"family": fam, "memory": str(mem), "segment": type(seg).__name__, "size": size,
+                                                  "payload": payload.hex()[:64] + "..."},
+                                       "detail": f"{type(seg).__name__}.parse_binary kept {len(back)} bytes of a {size}-byte segment"
+                                                 + ("" if len(back) != size else " (content differs)"),
+                                       "obligation": "fixed-size-segment-comes-back-whole"})
+    return [{"name": "fixed-size segments come back whole from parse_binary", "function": "spsdk.image.bootable_image.segments:Segment*.parse_binary",
+             "method": "every fixed-size segment class of every (family, memory) layout: random payload and, for FCB classes, a payload with the FCB tag",
+             "bound": f"{n2} (segment class, payload) cases, {skipped} rejected by the parser", "cases": max(n2, 1), "label": "bounded", "failures": fails2},
+            {"name": "segment layouts of the live database", "function": "spsdk/data/devices/*/database.yaml (bootable_image)",
              "method": "every (family, memory type); distinct layouts checked for the data obligations of the placement theorem",
              "bound": f"{n} (family, memory) pairs, {len(seen)} distinct layouts", "cases": max(n, 1), "exhaustive": True, "label": "bounded", "failures": fails}]
